@@ -486,12 +486,16 @@ pub struct Upload<'a> {
     pub dups: Vec<usize>, // consecutive deliveries per block (cycled)
     pub abandoned: Option<(Vec<u8>, u8, usize)>, // other body, szx, number of blocks delivered before giving up
     pub dup_final: usize,
+    pub fresh_tokens: bool, // every delivery is its own exchange with a fresh token (RFC 7959 allows it)
 }
 
 fn run_upload(cx: &mut Ctx, u: &Upload, sess: &mut Session) {
-    let shape = u.shape;
+    let base_shape = u.shape;
+    let mut shape_buf = base_shape.clone();
+    let mut delivery = 0usize;
     let mut problems: Vec<(&'static str, String)> = vec![];
     let mut mid = 500u16;
+    let shape = base_shape;
     if let Some((other, oszx, nblocks)) = &u.abandoned {
         let osize = 16usize << oszx;
         let chunks: Vec<&[u8]> = other.chunks(osize).collect();
@@ -513,6 +517,11 @@ fn run_upload(cx: &mut Ctx, u: &Upload, sess: &mut Session) {
         let reps = if more { u.dups[i % u.dups.len()].max(1) } else { 1 + u.dup_final };
         for rep in 0..reps {
             mid += 1;
+            delivery += 1;
+            if u.fresh_tokens {
+                shape_buf.tok = (0..(delivery % 9)).map(|x| (x * 7 + delivery) as u8).collect();
+            }
+            let shape = &shape_buf;
             let o = sess.step(Op::Req(u.ep, shape.spec(mid, Some(bv_bytes(i, more, u.szx)), None, c)));
             let ov = overhead_of(&shape.spec(mid, Some(bv_bytes(i, more, u.szx)), None, &[]).build());
             let admits = u.m >= ov + 12 + size && u.m <= 1280;
@@ -1005,9 +1014,9 @@ pub fn run(cx: &mut Ctx) {
         }
         let mut s = Session::new(64, 60000);
         let other = body_of(&mut rng, 200);
-        run_upload(cx, &Upload { shape: &shapes[1], ep: 1, m: 64, body: body_of(&mut rng, 21), szx: 0, dups: vec![1], abandoned: Some((other, 0, 6)), dup_final: 0 }, &mut s);
+        run_upload(cx, &Upload { shape: &shapes[1], ep: 1, m: 64, body: body_of(&mut rng, 21), szx: 0, dups: vec![1], abandoned: Some((other, 0, 6)), dup_final: 0, fresh_tokens: false }, &mut s);
         let mut s = Session::new(64, 60000);
-        run_upload(cx, &Upload { shape: &shapes[1], ep: 1, m: 64, body: body_of(&mut rng, 40), szx: 0, dups: vec![1], abandoned: None, dup_final: 1 }, &mut s);
+        run_upload(cx, &Upload { shape: &shapes[1], ep: 1, m: 64, body: body_of(&mut rng, 40), szx: 0, dups: vec![1], abandoned: None, dup_final: 1, fresh_tokens: false }, &mut s);
     }
 
     // ---- A. Block2 downloads
@@ -1034,6 +1043,15 @@ pub fn run(cx: &mut Ctx) {
         }
     }
     cx.exhaustive.push("Block2 downloads of every body length 0..3*blocksize+1 for block sizes 16, 32, 64 x client preference none / equal / larger".into());
+    // replies whose repeatable options carry equal values (Location-Path /node/7/node, two equal ETags)
+    for ropts in [vec![(8u16, b"node".to_vec()), (8, b"7".to_vec()), (8, b"node".to_vec())], vec![(4u16, vec![1, 2]), (4, vec![1, 2])], vec![(8u16, vec![]), (8, vec![]), (20, b"a=1".to_vec()), (20, b"a=1".to_vec())]] {
+        for &m in &[64usize, 128] {
+            let shape = &shapes[0];
+            let body = body_of(&mut rng, 150);
+            let mut sess = Session::new(m + 40, 60000);
+            run_download(cx, &Download { shape, ep: 1, m: m + 40, body, resp_opts: ropts.clone(), first_szx: Some(0), reduce_at: None }, &mut sess, true);
+        }
+    }
     let lens: Vec<usize> = if thorough { vec![0, 15, 16, 17, 1023, 1024, 1025, 2048, 4097, 20000] } else { vec![0, 15, 16, 17, 1023, 1024, 1025, 5000] };
     for &len in &lens {
         for &m in &[38usize, 64, 100, 128, 256, 512, 1024, 1152, 1279, 1280] {
@@ -1159,7 +1177,7 @@ pub fn run(cx: &mut Ctx) {
                     let body = body_of(&mut rng, len);
                     let abandoned = aband.map(|n| (body_of(&mut rng, 8 * (16usize << ((szx + 1) % 3))), (szx + 1) % 3, n));
                     let mut sess = Session::new(m, 60000);
-                    run_upload(cx, &Upload { shape, ep: 1, m, body, szx, dups: dups.clone(), abandoned, dup_final: 0 }, &mut sess);
+                    run_upload(cx, &Upload { shape, ep: 1, m, body, szx, dups: dups.clone(), abandoned, dup_final: 0, fresh_tokens: false }, &mut sess);
                 }
             }
         }
@@ -1168,12 +1186,54 @@ pub fn run(cx: &mut Ctx) {
     // long uploads at the smallest size: block numbers past 15 (scalar >= 256, two-byte option values)
     for len in [16 * 16 + 5, 16 * 17, 16 * 17 + 9, 16 * 33 + 1] {
         let mut sess = Session::new(64, 60000);
-        run_upload(cx, &Upload { shape: &shapes[0], ep: 1, m: 64, body: body_of(&mut rng, len), szx: 0, dups: vec![1, 2], abandoned: None, dup_final: 0 }, &mut sess);
+        run_upload(cx, &Upload { shape: &shapes[0], ep: 1, m: 64, body: body_of(&mut rng, len), szx: 0, dups: vec![1, 2], abandoned: None, dup_final: 0, fresh_tokens: false }, &mut sess);
+    }
+    // every block is its own exchange with a fresh token (and token length)
+    for (len, szx) in [(40usize, 0u8), (100, 1), (700, 3), (16 * 5 + 3, 0)] {
+        let shape = &shapes[1];
+        let ov = overhead_of(&ReqShape { tok: vec![0; 8], ..shape.clone() }.spec(1, Some(bv_bytes(1, true, szx)), None, &[]).build());
+        let m = ov + 12 + (16usize << szx) + 3;
+        let mut sess = Session::new(m, 60000);
+        run_upload(cx, &Upload { shape, ep: 1, m, body: body_of(&mut rng, len), szx, dups: vec![1, 2], abandoned: None, dup_final: 0, fresh_tokens: true }, &mut sess);
+    }
+    // final upload block that also carries a Block2 size wish (RFC 7959 3.3), reply large enough to fragment
+    for (m, up_szx, want_szx) in [(100usize, 1u8, 0u8), (128, 2, 0), (300, 3, 1), (1152, 4, 2)] {
+        let shape = &shapes[2];
+        let usize_ = 16usize << up_szx;
+        let body = body_of(&mut rng, 2 * usize_);
+        let mut sess = Session::new(m, 60000);
+        let mut problems: Vec<(&'static str, String)> = vec![];
+        sess.step(Op::Req(1, shape.spec(1, Some(bv_bytes(0, true, up_szx)), None, &body[..usize_])));
+        let o = sess.step(Op::Req(1, shape.spec(2, Some(bv_bytes(1, false, up_szx)), Some(bv_bytes(0, false, want_szx)), &body[usize_..])));
+        if o.outcome == Outcome::Ok(false) {
+            let reply = body_of(&mut rng, 500);
+            let a = sess.step(Op::App(0x44, vec![], reply.clone()));
+            let ovr = {
+                let mut p = Packet::new();
+                p.set_token(shape.tok.clone());
+                overhead_of(&p) + 3
+            };
+            if let (Outcome::Ok(_), Some(r)) = (&a.outcome, &a.resp) {
+                if let Some((num, _, szx)) = first_opt(r, 23).and_then(|b| parse_bv(&b)) {
+                    let want = 16usize << want_szx;
+                    if (16usize << szx) > want {
+                        problems.push(("C10", format!("reply to the final upload block uses {}-byte blocks, the client asked for {}", 16usize << szx, want)));
+                    }
+                    if want + ovr + 32 <= m && szx != want_szx {
+                        problems.push(("C10", format!("client's Block2 size {} fits the budget {} with room to spare but {} was used", want, m, 16usize << szx)));
+                    }
+                    if num != 0 {
+                        problems.push(("C08", "first block of the reply is not block 0".into()));
+                    }
+                }
+            }
+        }
+        report(cx, &sess, problems);
     }
     // K1 (known finding): final block delivered twice
     for len in [10usize, 40] {
         let mut sess = Session::new(64, 60000);
-        run_upload(cx, &Upload { shape: &shapes[0], ep: 1, m: 64, body: body_of(&mut rng, len), szx: 0, dups: vec![1], abandoned: None, dup_final: 1 }, &mut sess);
+        run_upload(cx, &Upload { shape: &shapes[0], ep: 1, m: 64, body: body_of(&mut rng, len), szx: 0, dups: vec![1], abandoned: None, dup_final: 1, fresh_tokens: false }, &mut sess);
     }
     // too-large requests without Block1 -> 4.13 with a Block1 hint
     for shape in &shapes {
@@ -1233,6 +1293,49 @@ pub fn run(cx: &mut Ctx) {
     for _ in 0..nh {
         run_hostile(cx, &mut rng, &shapes);
     }
+    // "climbing" uploads: a chain of Block1 requests (never block 0) at growing offsets with payloads
+    // larger than the announced block, so that the buffer's length, the jump needed and the payload
+    // size are all in play at once; every step must respect the growth bound
+    let nclimb = if thorough { 6000 } else { 1500 };
+    for ci in 0..nclimb {
+        let shape = &shapes[1];
+        let mut sess = Session::new(5000, 60000);
+        let mut problems: Vec<(&'static str, String)> = vec![];
+        let steps = rng.range(2, 6);
+        for _ in 0..steps {
+            let szx = rng.below(7) as u8;
+            let size = 16usize << szx;
+            let before = sess.outs.iter().rev().find_map(|o| o.peek.as_ref().and_then(|p| p.buf)).unwrap_or(0);
+            // aim the jump around the 16 KiB reserve
+            let target_jump = match rng.below(4) {
+                0 => rng.range(0, 2000) as usize,
+                1 => 16384usize.saturating_sub(rng.below(40) as usize),
+                2 => 16384 + rng.range(1, 1300) as usize,
+                _ => rng.range(8000, 30000) as usize,
+            };
+            let mut num = ((before + target_jump).saturating_sub(size)) / size;
+            if num == 0 {
+                num = 1;
+            }
+            let plen = *rng.pick(&[0usize, 1, 16, 100, 512, 1100, 1200]);
+            let mut spec = shape.spec((ci % 60000) as u16, Some(bv_bytes(num.min(65535), true, szx)), None, &vec![0x77u8; plen]);
+            spec.vtt = 0x40; // confirmable, empty token
+            spec.tok = vec![];
+            let o = sess.step(Op::Req(1, spec));
+            let after = o.peek.as_ref().and_then(|p| p.buf).unwrap_or(before);
+            let needed = (num.min(65535) * size + size).saturating_sub(before);
+            if after > before + 16384 + plen {
+                problems.push(("C11", format!("one request grew the buffered upload from {} to {} bytes (payload {})", before, after, plen)));
+            }
+            if needed > 16384 && (o.outcome == Outcome::Ok(true) || after != before) {
+                problems.push(("C11", format!("block {} (size {}) lies {} bytes beyond the buffered data (more than the 16 KiB reserve) but was not rejected / changed the buffer ({} -> {})", num, size, needed, before, after)));
+            }
+            if o.outcome == Outcome::Panic {
+                problems.push(("C11", "intercept_request panicked".into()));
+            }
+        }
+        report(cx, &sess, problems);
+    }
 
     // ---- D. interleavings of two transfers differing in exactly one key component
     let base = ReqShape { typ: 0, code: 1, tok: vec![1], path: vec![b"a".to_vec(), b"b".to_vec()], extra: vec![] };
@@ -1242,6 +1345,11 @@ pub fn run(cx: &mut Ctx) {
         (ReqShape { path: vec![b"a/b".to_vec()], ..base.clone() }, 1, "segmentation"),
         (ReqShape { path: vec![b"a".to_vec()], ..base.clone() }, 1, "prefix"),
         (ReqShape { path: vec![b"a".to_vec(), b"b".to_vec(), b"c".to_vec()], ..base.clone() }, 1, "longer path"),
+        (ReqShape { path: vec![b"a\x1fb".to_vec()], ..base.clone() }, 1, "unit separator inside a segment"),
+        (ReqShape { path: vec![b"a\x00b".to_vec()], ..base.clone() }, 1, "NUL inside a segment"),
+        (ReqShape { path: vec![b"a,b".to_vec()], ..base.clone() }, 1, "comma inside a segment"),
+        (ReqShape { path: vec![b"a".to_vec(), b"".to_vec(), b"b".to_vec()], ..base.clone() }, 1, "empty middle segment"),
+        (ReqShape { path: vec![b"a b".to_vec()], ..base.clone() }, 1, "space inside a segment"),
     ];
     let body1 = body_of(&mut rng, 70);
     let body2 = body_of(&mut rng, 60);
